@@ -1,5 +1,6 @@
 """C22 — delay durations are validated and delay arguments preserved."""
 import json
+import re
 import time
 from fractions import Fraction
 
@@ -16,6 +17,7 @@ TAG_ACCEPT = "loop-indexed-duration-not-rejected"
 TAG_FUNC = "loop-indexed-duration-function-fails"
 TAG_ASSERT = "loop-delay-expression-free-symbol"
 TAG_VEC = "loop-delay-expression-vector-element"
+TAG_CACHEVEC = "cache-duration-vector-element"
 
 # ---------------------------------------------------------------------------------------------
 # Case (JSON):
@@ -37,6 +39,15 @@ def pr(e, lvl=0):
         return e[1]
     if k == "el":
         return "%s[%d]" % (e[1], e[2])
+    if k == "el2":
+        return "%s[%d,%d]" % (e[1], e[2], e[3])
+    if k == "arr":
+        return e[1]
+    if k == "smul":
+        return "%s * %s" % (pr(e[1], 2), pr(e[2], 2))
+    if k == "aadd":
+        s = "%s + %s" % (pr(e[1], 0), pr(e[2], 0))
+        return "(%s)" % s if lvl >= 1 else s
     if k == "vi":
         return "%s[i]" % e[1]
     if k == "i":
@@ -68,13 +79,45 @@ def pr(e, lvl=0):
 
 
 NONPOLY = ("if", "abs", "min", "max")
+# array expressions (only as the delayed expression of a whole-array equation ["aeq", Y, ["delay", aexpr, dur]]):
+#   ["arr", name] | ["smul", scalar expr, aexpr] | ["aadd", aexpr, aexpr];  scalar leaf ["el2", name, i, j, cols]
+
+
+def sides(q):
+    """(lhs, rhs) expression pairs of an equation item."""
+    if q[0] == "eq":
+        return [(q[1], q[2])]
+    if q[0] == "aeq":
+        return [(["arr", q[1]], q[2])]
+    return [(b[1], b[2]) for b in q[3]]
+
+
+def shape_of(case, name):
+    for v in case["vars"]:
+        if v["name"] == name:
+            return tuple(v["mat"]) if v.get("mat") else ((case["N"], 1) if v["vec"] else (1, 1))
+    raise KeyError(name)
+
+
+def arr_shape(case, a):
+    return shape_of(case, a[1]) if a[0] == "arr" else arr_shape(case, a[2])
+
+
+def elem(case, a, i, j):
+    """Scalar expression of element (i, j) (1-based) of an array expression."""
+    if a[0] == "arr":
+        sh = shape_of(case, a[1])
+        return ["el2", a[1], i, j, sh[1]] if len(sh) == 2 and sh[1] > 1 else ["el", a[1], i]
+    if a[0] == "smul":
+        return ["mul", a[1], elem(case, a[2], i, j)]
+    return ["add", elem(case, a[1], i, j), elem(case, a[2], i, j)]
 
 
 def children(e):
     k = e[0]
     if k in ("neg", "abs"):
         return [e[1]]
-    if k in ("add", "sub", "mul", "delay", "min", "max"):
+    if k in ("add", "sub", "mul", "delay", "min", "max", "smul", "aadd"):
         return [e[1], e[2]]
     if k == "if":                      # ["if", rel, c1, c2, then, else]
         return [e[2], e[3], e[4], e[5]]
@@ -85,14 +128,14 @@ def used_names(case):
     out = set()
 
     def walk(e):
-        if e[0] in ("v", "el", "vi", "der"):
+        if e[0] in ("v", "el", "vi", "der", "arr", "el2"):
             out.add(e[1])
         for c in children(e):
             walk(c)
     for q in case["eqs"]:
-        for b in ([q] if q[0] == "eq" else q[3]):
-            walk(b[1])
-            walk(b[2])
+        for l, r in sides(q):
+            walk(l)
+            walk(r)
     return out
 
 
@@ -101,7 +144,7 @@ def to_text(case):
     n = case["N"]
     for v in case["vars"]:
         pre = {"const": "constant ", "param": "parameter ", "finput": "input ", "input": "input ", "plain": ""}[v["kind"]]
-        s = v["name"] + ("[%d]" % n if v["vec"] else "")
+        s = v["name"] + ("[%d,%d]" % tuple(v["mat"]) if v.get("mat") else "[%d]" % n if v["vec"] else "")
         if v["kind"] == "finput":
             s += "(each fixed=true)" if v["vec"] else "(fixed=true)"
         if v.get("bind"):
@@ -113,6 +156,8 @@ def to_text(case):
     for q in case["eqs"]:
         if q[0] == "eq":
             out.append("  %s = %s;" % (pr(q[1]), pr(q[2])))
+        elif q[0] == "aeq":
+            out.append("  %s = %s;" % (q[1], pr(q[2])))
         else:
             out.append("  for i in %d:%d loop" % (q[1], q[2]))
             for b in q[3]:
@@ -129,7 +174,7 @@ def poly(e, dly):
     k = e[0]
     if k == "num":
         return {(): Fraction(e[1])} if e[1] else {}
-    if k in ("v", "el", "vi", "i", "time", "der"):
+    if k in ("v", "el", "vi", "i", "time", "der", "el2"):
         return {(tuple(e),): Fraction(1)}
     if k == "delay":
         return {(("dly", dly[id(e)]),): Fraction(1)}
@@ -178,7 +223,7 @@ def syn_atoms(e, dly):
     k = e[0]
     if k == "num":
         return set(), e[1]
-    if k in ("v", "el", "vi", "i", "time", "der"):
+    if k in ("v", "el", "vi", "i", "time", "der", "el2"):
         return {tuple(e)}, None
     if k == "delay":
         return {("dly", dly[id(e)])}, None
@@ -214,13 +259,11 @@ def collect_delays(case):
             for c in children(e):
                 walk(c, loop)
     for q in case["eqs"]:
-        if q[0] == "eq":
-            walk(q[1], None)
-            walk(q[2], None)
-        else:
-            for b in q[3]:
-                walk(b[1], (q[1], q[2]))
-                walk(b[2], (q[1], q[2]))
+        for l, r in sides(q):
+            walk(l, (q[1], q[2]) if q[0] == "for" else None)
+            walk(r, (q[1], q[2]) if q[0] == "for" else None)
+    for r in recs:
+        r["array"] = r["e"][0] in ("arr", "smul", "aadd")
     return recs, dly
 
 
@@ -233,9 +276,9 @@ def der_names(case):
         for c in children(e):
             walk(c)
     for q in case["eqs"]:
-        for b in ([q] if q[0] == "eq" else q[3]):
-            walk(b[1])
-            walk(b[2])
+        for l, r in sides(q):
+            walk(l)
+            walk(r)
     return out
 
 
@@ -268,6 +311,8 @@ def evaluate(e, pt, dly, i=None):
         return Fraction(pt["vals"][e[1]][0])
     if k == "el":
         return Fraction(pt["vals"][e[1]][e[2] - 1])
+    if k == "el2":
+        return Fraction(pt["vals"][e[1]][(e[2] - 1) * e[4] + e[3] - 1])
     if k == "vi":
         return Fraction(pt["vals"][e[1]][i - 1])
     if k == "i":
@@ -321,7 +366,7 @@ def resolved(case):
         return case
 
     def sub(e):
-        if e[0] == "v" and e[1] in al:
+        if e and e[0] == "v" and e[1] in al:
             return json.loads(json.dumps(al[e[1]]))
         return [sub(x) if isinstance(x, list) else x for x in e]
     eqs = []
@@ -350,7 +395,7 @@ def analyse(case):
                                                a[0] in ("vi",)))
         if r["loop"] and loop_atoms(atoms):
             info["loop_dur"].append(k)
-        r["indexed"] = bool(r["loop"]) and any(a[0] == "vi" for a in dep_atoms(r["e"], dly))
+        r["indexed"] = bool(r["loop"]) and not r["array"] and any(a[0] == "vi" for a in dep_atoms(r["e"], dly))
     # generator.py:486 assert: free symbols of an indexed loop delay's expression must occur in the loop body
     for q in case["eqs"]:
         if q[0] != "for":
@@ -389,7 +434,30 @@ def as_fraction(x):
 
 
 def judge(case, res):
-    """Property oracle on the implementation's observation.  -> (tag, why) or None."""
+    """Property oracle on the implementation's observation (every transfer_model call of a cache case).
+    -> (tag, why) or None."""
+    v = judge1(case, res)
+    if v:
+        return v
+    for j, r in enumerate(res.get("more") or []):
+        v = judge1(case, r)
+        if v:
+            return ("call-%d:%s" % (j + 2, v[0]), "transfer_model call #%d on the same folder (cache): %s" % (j + 2, v[1]))
+    return None
+
+
+def expected_entries(case, r, pt, dly):
+    """Shape and values (dict (i, j) -> Fraction, 1-based) of the delayed expression of one delay call."""
+    if r["array"]:
+        sh = arr_shape(case, r["e"])
+        return sh, {(i, j): evaluate(elem(case, r["e"], i, j), pt, dly) for i in range(1, sh[0] + 1) for j in range(1, sh[1] + 1)}
+    if r["indexed"]:
+        lo, hi = r["loop"]
+        return (hi - lo + 1, 1), {(i - lo + 1, 1): evaluate(r["e"], pt, dly, i) for i in range(lo, hi + 1)}
+    return (1, 1), {(1, 1): evaluate(r["e"], pt, dly)}
+
+
+def judge1(case, res):
     if case.get("malformed"):
         return None
     info = analyse(case)
@@ -403,6 +471,11 @@ def judge(case, res):
         if info["vec_class"] and res.get("exc") == "RuntimeError" and "truth value" in res.get("msg", ""):
             return (TAG_VEC, "transfer_model raises RuntimeError (truth value of a vector MX): an indexed delay inside a "
                     "for-loop whose delayed expression uses an element v[k] of a vector that also occurs in the loop body")
+        if (case.get("options") or {}).get("cache") and res.get("exc") == "RuntimeError" \
+                and "truth value" in res.get("msg", "") \
+                and any(a[0] == "el" for r in info["recs"] for a in dep_atoms(r["d"], info["dly"])):
+            return (TAG_CACHEVEC, "transfer_model(cache=True) raises RuntimeError (truth value of a vector MX): a delay "
+                    "duration mentions an element of an array variable")
         return ("exception", "transfer_model raised %s: %s" % (res.get("exc"), res.get("msg")))
     if st == "rejected":
         if not should_reject:
@@ -415,43 +488,54 @@ def judge(case, res):
         return (TAG_ACCEPT if only_via_loop else "accepted-invalid",
                 "accepted although the duration of delay %d depends on %s (%s)" % (k, what, cat))
     n = info["n"]
-    strip = (lambda s_: s_[:-5] if s_.endswith("[1,1]") else s_) if (case.get("options") or {}).get("expand_vectors") \
-        else (lambda s_: s_)
-    res = dict(res, delay_states=[strip(x) for x in res["delay_states"]], inputs=[[strip(a), b] for a, b in res["inputs"]])
-    if res["delay_states"] != ["_pymoca_delay_%d" % k for k in range(n)] or res["n_delay_arguments"] != n:
-        return ("delay-list", "delay_states = %s, expected %d delays in creation order" % (res["delay_states"], n))
+    recs, dly = info["recs"], info["dly"]
+    rcase = resolved(case)
+    expanded = bool((case.get("options") or {}).get("expand_vectors"))
+    shapes = [expected_entries(rcase, r, case["points"][0], dly)[0] for r in recs]
+    # delay states: one per delay call, or (expand_vectors) one per element, named _pymoca_delay_k[i,j]
+    if expanded:
+        want = ["_pymoca_delay_%d[%d,%d]" % (k, i, j) for k in range(n)
+                for i in range(1, shapes[k][0] + 1) for j in range(1, shapes[k][1] + 1)]
+    else:
+        want = ["_pymoca_delay_%d" % k for k in range(n)]
+    if sorted(res["delay_states"]) != sorted(want) or res["n_delay_arguments"] != len(want) or \
+            (not expanded and res["delay_states"] != want):
+        return ("delay-list", "delay_states = %s, expected %s" % (res["delay_states"], want))
     inp = dict((a, b) for a, b in res["inputs"])
-    for k in range(n):
-        if inp.get("_pymoca_delay_%d" % k, None) is not False:
-            return ("delay-input", "_pymoca_delay_%d is not a non-fixed input: %s" % (k, res["inputs"]))
+    for name in want:
+        if inp.get(name, None) is not False:
+            return ("delay-input", "%s is not a non-fixed input: %s" % (name, res["inputs"]))
     if n == 0:
         return None
     if res["func"] is not None:
         return (TAG_FUNC if info["loop_dur"] else "function-fails",
                 "accepted but delay_arguments_function cannot be built/evaluated: %s" % res["func"].get("msg", "")[-160:])
-    recs, dly = info["recs"], info["dly"]
-    if len(res["shapes"]) != 2 * n:
-        return ("argument-count", "%d outputs for %d delays" % (len(res["shapes"]), n))
-    for k, r in enumerate(recs):
-        cnt = (r["loop"][1] - r["loop"][0] + 1) if r["indexed"] else 1
-        if res["shapes"][2 * k] != [cnt, 1] or res["shapes"][2 * k + 1] != [1, 1]:
-            return ("argument-shape", "delay %d: shapes %s / %s, expected [%d, 1] / [1, 1]"
-                    % (k, res["shapes"][2 * k], res["shapes"][2 * k + 1], cnt))
+    if len(res["shapes"]) != 2 * len(want):
+        return ("argument-count", "%d outputs for %d delay states" % (len(res["shapes"]), len(want)))
     for pi, (pt, vals) in enumerate(zip(case["points"], res["values"])):
-        for k, r in enumerate(recs):
-            if r["indexed"]:
-                exp_e = [evaluate(r["e"], pt, dly, i) for i in range(r["loop"][0], r["loop"][1] + 1)]
+        for t, name in enumerate(res["delay_states"]):
+            m_ = re.fullmatch(r"_pymoca_delay_(\d+)(?:\[(\d+),(\d+)\])?", name)
+            k = int(m_.group(1))
+            r = recs[k]
+            sh, ent = expected_entries(rcase, r, pt, dly)
+            if expanded:
+                exp_e = [ent[(int(m_.group(2)), int(m_.group(3)))]]
+                exp_shape = [1, 1]
             else:
-                exp_e = [evaluate(r["e"], pt, dly)]
+                exp_e = [ent[(i, j)] for j in range(1, sh[1] + 1) for i in range(1, sh[0] + 1)]     # column-major
+                exp_shape = list(sh)
+            if res["shapes"][2 * t] != exp_shape or res["shapes"][2 * t + 1] != [1, 1]:
+                return ("argument-shape", "%s: shapes %s / %s, expected %s / [1, 1]"
+                        % (name, res["shapes"][2 * t], res["shapes"][2 * t + 1], exp_shape))
             exp_d = [evaluate(r["d"], pt, dly)]
-            got_e = [as_fraction(x) for x in vals[2 * k]]
-            got_d = [as_fraction(x) for x in vals[2 * k + 1]]
+            got_e = [as_fraction(x) for x in vals[2 * t]]
+            got_d = [as_fraction(x) for x in vals[2 * t + 1]]
             if got_e != exp_e:
-                return ("argument-expr", "delay %d at point %d: delayed expression %s evaluates to %s, function returns %s"
-                        % (k, pi, pr(r["e"]), [str(x) for x in exp_e], vals[2 * k]))
+                return ("argument-expr", "%s at point %d: delayed expression %s evaluates to %s, function returns %s"
+                        % (name, pi, pr(r["e"]), [str(x) for x in exp_e], vals[2 * t]))
             if got_d != exp_d:
-                return ("argument-duration", "delay %d at point %d: duration %s evaluates to %s, function returns %s"
-                        % (k, pi, pr(r["d"]), [str(x) for x in exp_d], vals[2 * k + 1]))
+                return ("argument-duration", "%s at point %d: duration %s evaluates to %s, function returns %s"
+                        % (name, pi, pr(r["d"]), [str(x) for x in exp_d], vals[2 * t + 1]))
     return None
 
 
@@ -511,10 +595,18 @@ def enc_point(pt, ids):
     return "(mkEnv %s %s %s)" % (cq_Z(pt["time"]), cq_list(vals), cq_list(ders))
 
 
+def modelled(case):
+    o = case.get("options") or {}
+    if o.get("detect_aliases") or any(q[0] == "aeq" for q in case["eqs"]):
+        return False
+    # expand_vectors splits loop delays into scalar delay states: same values, other output layout
+    return not (o.get("expand_vectors") and any(q[0] == "for" for q in case["eqs"]))
+
+
 def encode_case(case, res):
     """-> Gallina term of type model * list envd * obs, or None when the observation has no model counterpart."""
-    if (case.get("options") or {}).get("detect_aliases"):
-        return None                                   # alias elimination is not modelled (oracle only)
+    if not modelled(case) or ((case.get("options") or {}).get("cache") and res.get("status") == "error"):
+        return None                                   # alias elimination / array delays / cache-path errors: oracle only
     m, ids = enc_model(case)
     pts = cq_list([enc_point(p, ids) for p in case["points"]])
     st = res.get("status")
@@ -559,8 +651,13 @@ ALLOWED_VECS = ["cv", "pv", "ufv"]
 BAD_VECS = ["uv", "av", "bv"]
 
 
+EL_OK = [True]        # cache stream: no array elements in durations (known finding cache-duration-vector-element)
+
+
 def leaf_allowed(rng, in_loop):
     x = rng.random()
+    if not EL_OK[0] and x >= 0.70:
+        x = 0.5
     if x < 0.15:
         return ["num", rng.choice([1, 2, 3, 5, -2])]
     if x < 0.70:
@@ -577,6 +674,8 @@ BAD_KINDS = ["time", "state", "der", "alg", "input", "delay", "alg-el", "input-e
 
 def leaf_bad(rng, in_loop, kind=None, allow_delay=True):
     kind = kind or rng.choice(BAD_KINDS)
+    if not EL_OK[0] and kind in ("alg-el", "input-el"):
+        kind = kind[:-3]
     if kind in ("loop-alg", "loop-input") and not in_loop:
         kind = kind[5:]
     if kind == "delay" and not allow_delay:
@@ -700,11 +799,12 @@ def gen_points(rng, case, n_pts):
     used = used_names(case)
     pts = []
     for _ in range(n_pts):
-        vals = {v["name"]: [rng.randint(-4, 5) for _ in range(N if v["vec"] else 1)]
+        vals = {v["name"]: [rng.randint(-4, 5) for _ in range(v["mat"][0] * v["mat"][1] if v.get("mat") else N if v["vec"] else 1)]
                 for v in case["vars"] if v["name"] in used}
         for k in range(len(recs)):
             vals["_pymoca_delay_%d" % k] = [rng.randint(-4, 5)]
         pts.append({"time": rng.randint(-3, 6), "vals": vals,
+                    "shape": {v["name"]: v["mat"] for v in case["vars"] if v.get("mat")},
                     "der": {n: rng.randint(-4, 5) for n in sorted(der_names(case))}})
     return pts
 
@@ -727,7 +827,7 @@ def prune(rng, case, keep=0.15):
     return case
 
 
-def gen_model(rng, p_bad=0.22, p_loopdep=0.04, p_nohelper=0.04, kind="random"):
+def gen_model(rng, p_bad=0.22, p_loopdep=0.04, p_nohelper=0.04, kind="random", p_vec=0.06):
     vs = base_vars(rng)
     eqs = [["eq", ["der", "x1"], ["sub", ["v", "u1"], ["v", "x1"]]],
            ["eq", ["v", "a1"], ["add", ["v", "x1"], ["v", "c1"]]]]
@@ -743,7 +843,7 @@ def gen_model(rng, p_bad=0.22, p_loopdep=0.04, p_nohelper=0.04, kind="random"):
                 yn = "yv%d" % ny
                 vs.append({"name": yn, "kind": "plain", "vec": True, "bind": None})
                 indexed = rng.random() < 0.8
-                e = gen_expr(rng, True, indexed)
+                e = gen_expr(rng, True, indexed, p_vec=p_vec)
                 want_bad = rng.random() < p_bad
                 if rng.random() < p_loopdep:                      # known-defect class: duration references i / v[i]
                     d = combine(rng, [leaf_allowed(rng, False), rng.choice([["vi", "pv"], ["vi", "ufv"], ["i"], ["vi", "av"], ["vi", "uv"]])])
@@ -851,6 +951,70 @@ def option_table(rng):
     return out
 
 
+def gen_array_case(rng, options=None):
+    """Delays of whole 2-D arrays and vectors (plus a scalar delay and sometimes a for-loop delay), mostly under
+    expand_vectors with / without expand_mx: every delay state must carry ITS element of the delayed expression."""
+    if options is None:
+        options = rng.choice([{"expand_vectors": True}, {"expand_vectors": True, "expand_mx": True},
+                              {"expand_vectors": True}, {}])
+    vs = base_vars(rng)
+    eqs = [["eq", ["der", "x1"], ["sub", ["v", "u1"], ["v", "x1"]]],
+           ["eq", ["v", "a1"], ["add", ["v", "x1"], ["v", "c1"]]]]
+    items = []
+    good = lambda: gen_duration(rng, False, rng.random() < 0.12, p_piece=0.1)     # noqa: E731
+    scal = lambda: rng.choice([["num", 2], ["num", 3], ["v", "p1"], ["v", "c1"], ["neg", ["v", "p2"]], ["v", "x1"]])  # noqa: E731
+    for k in range(rng.randint(1, 2)):
+        sh = rng.choice([[2, 3], [3, 2], [2, 2], [3, 3]])
+        names = ["A%d" % k, "B%d" % k, "Y%d" % k]
+        for nm in names:
+            vs.append({"name": nm, "kind": "plain", "vec": False, "mat": sh, "bind": None})
+        x = rng.random()
+        a = ["arr", names[0]] if x < 0.2 else ["smul", scal(), ["arr", names[0]]] if x < 0.6 else \
+            ["aadd", ["smul", scal(), ["arr", names[0]]], ["arr", names[1]]]
+        items.append(["aeq", names[2], ["delay", a, good()]])
+    if rng.random() < 0.7:                                            # a delayed vector
+        vs.append({"name": "W1", "kind": "plain", "vec": True, "bind": None})
+        a = rng.choice([["arr", "av"], ["smul", scal(), ["arr", "uv"]], ["aadd", ["arr", "av"], ["smul", scal(), ["arr", "pv"]]]])
+        items.append(["aeq", "W1", ["delay", a, good()]])
+    if rng.random() < 0.7:                                            # a scalar delay
+        vs.append({"name": "y1", "kind": "plain", "vec": False, "bind": None})
+        items.append(["eq", ["v", "y1"], ["delay", gen_expr(rng, False, False), good()]])
+    if rng.random() < 0.5:                                            # a for-loop delay (with helper equation)
+        for nm in ("yv1", "hv1"):
+            vs.append({"name": nm, "kind": "plain", "vec": True, "bind": None})
+        lo = rng.randint(1, 2)
+        items.append(["for", lo, rng.randint(lo + 1, 3),
+                      [["eq", ["vi", "hv1"], ["mul", ["vi", "uv"], ["v", "p2"]]],
+                       ["eq", ["vi", "yv1"], ["delay", ["mul", ["mul", ["num", 3], ["vi", rng.choice(["av", "bv"])]], ["v", "p2"]], good()]]]])
+    rng.shuffle(items)
+    case = prune(rng, {"N": N, "vars": vs, "eqs": eqs + items, "kind": "array", "options": dict(options)}, keep=0.05)
+    case["points"] = gen_points(rng, case, 1)
+    return case
+
+
+def cache_cases(rng, n_random):
+    """cache stream: the same folder is transferred 2 or 3 times with {"cache": True}: a rejected model must be
+    rejected again on the cache path, an accepted one must hand back the same arguments from the cache."""
+    out = []
+    tab = category_cases(rng)
+    for j, c in enumerate(tab):
+        if j % 4 == (0 if c["kind"].startswith("table:outside") else 3):
+            out.append(c)
+    EL_OK[0] = False
+    try:
+        for _ in range(n_random):
+            out.append(gen_model(rng, p_bad=0.4, p_loopdep=0.0, p_nohelper=0.0, p_vec=0.0))
+    finally:
+        EL_OK[0] = True
+    for j, c in enumerate(out):
+        for v in c["vars"]:
+            v["bind"] = None          # a parameter bound to a constant breaks save_model's metadata function (not C22)
+        c["kind"] = "cache:" + c["kind"].split(":")[0]
+        c["options"] = {"cache": True}
+        c["calls"] = 2 + (j % 3 == 0)
+    return out
+
+
 def category_cases(rng):
     """Finite table: one delay whose duration draws on exactly one category, outside and inside a for-loop."""
     durs = [("constant", ["v", "c1"]), ("parameter", ["v", "p1"]), ("bound parameter", ["v", "q1"]),
@@ -954,6 +1118,12 @@ def known_cases():
                                 ["eq", ["vi", "yv1"], ["delay", ["mul", ["vi", "av"], ["el", "pv", 2]], ["v", "p1"]]]]]]}
     c["points"] = gen_points(rng, c, 1)
     out[TAG_VEC] = c
+    vs = base_vars(rng) + [{"name": "y1", "kind": "plain", "vec": False, "bind": None}]
+    c = {"N": N, "vars": vs, "kind": "known", "options": {"cache": True},
+         "eqs": [["eq", ["der", "x1"], ["sub", ["v", "u1"], ["v", "x1"]]],
+                 ["eq", ["v", "y1"], ["delay", ["v", "x1"], ["el", "pv", 2]]]]}
+    c["points"] = gen_points(rng, c, 1)
+    out[TAG_CACHEVEC] = c
     for c in out.values():
         prune(rng, c, keep=0.0)
     return out
@@ -1009,11 +1179,14 @@ def run(ctx):
 
     cases = corpus_cases(ctx.rng) + category_cases(ctx.rng)
     n_fixed = len(cases)
-    n_rand = ctx.scaled(200, 3000)
+    n_rand = ctx.scaled(160, 3000)
     for _ in range(n_rand):
         cases.append(gen_model(ctx.rng))
+    cases += cache_cases(ctx.rng, ctx.scaled(20, 300))
+    for _ in range(ctx.scaled(40, 600)):
+        cases.append(gen_array_case(ctx.rng))
     cases += option_table(ctx.rng)
-    n_opt = ctx.scaled(60, 1200)
+    n_opt = ctx.scaled(50, 1200)
     for _ in range(n_opt):
         cases.append(gen_option_case(ctx.rng))
     for _ in range(ctx.scaled(8, 60)):
@@ -1050,7 +1223,7 @@ def run(ctx):
         if e is not None:
             enc.append(e)
             idx.append(i)
-        elif not v and not (c.get("options") or {}).get("detect_aliases"):
+        elif not v and modelled(c) and r.get("status") != "error":
             core.violation(ctx, "impl-violation", {"input": c, "observed": r, "what": "observation has no model counterpart"})
     t_coq = time.time()
     bad = core.coq_eval_cases(ctx, "gen", PREAMBLE, "model * list envd * obs", enc, "check_case", shard=40)
